@@ -56,7 +56,9 @@ RULE = (
     "long-lived trials so that brackets >= 1 have several rungs that are reached), mode None/'min'/'max'/list, priority "
     "default/NonDominated(dim, max_num_samples None or 1..10)/Fixed/Linear(weights), 1..8 workers, 3..40 trials, arrival policy uniform / "
     "round-robin / starve-one / burst, eager or lazy suggest, integer-grid or continuous objective tables, "
-    "early completions; report dicts in canonical key order, all reversed, a fixed shuffled order per trial, or "
+    "early completions; in 40% of the schedules half or all trials are sparse reporters (every 2nd/3rd/5th level, "
+    "first report at a later level) and in a third some self-ending trials complete with a final result at a new level; "
+    "report dicts in canonical key order, all reversed, a fixed shuffled order per trial, or "
     "re-shuffled per report with the resource attribute and extra keys interleaved; per-objective scales/offsets so "
     "that permuted coordinates change the vector). Distinct = digest of the (trial, level, decision) sequence; non-trivial = at least "
     "one rung decision with recorded entries."
@@ -64,8 +66,12 @@ RULE = (
 ASSUMPTIONS = [
     "objective values are finite numbers (no NaN / inf)",
     "max_items >= 1 and N >= 1 (max_items = 0 and empty inputs are not probed)",
-    "trials report every resource level 1,2,3,... (optionally shifted by +0.5), so a report newly reaches at "
-    "most one rung; the rung levels of bracket s are grace*rf^(k+s) <= max_t (exact arithmetic), the scheduler's own "
+    "most trials report every resource level 1,2,3,... (optionally shifted by +0.5); sparse reporters (stride 2/3/5, "
+    "first report above the first rung levels) may reach several rung levels with one report: the report decides and "
+    "is recorded at the first rung from the top with level <= resource at which the trial is not yet recorded, and "
+    "only there (the behaviour of _Bracket.on_result; a later report or the completion call then fills one skipped "
+    "lower rung); on_trial_complete gets the last result again (tuner contract) or, for some self-ending trials, a "
+    "final result at a new level, and records it with the same rule and the same mode signs; the rung levels of bracket s are grace*rf^(k+s) <= max_t (exact arithmetic), the scheduler's own "
     "list is only compared with them (levels >= max_t are shadowed by the max_t stop and not judged)",
     "NonDominatedPriority(max_num_samples=k): the best k items (layer-consistent order) are ranked, the others share "
     "the worst priority, so an item at sorted position r has rank min(r, k)",
@@ -145,6 +151,19 @@ def floors(tier):
         "decided:nd_priority_vector_pareto_consistent": 2500 if q else 60000,
         "decided:nd_priority_vector_with_max_num_samples<n": 500 if q else 12000,
         "decided:rung_rank_new_trial_cut_off_by_max_num_samples": 250 if q else 6000,
+        # sparse reporters (a report skips rung levels) and entries recorded on the completion path
+        "trials_sparse_reporter": 800 if q else 20000,
+        "decided:rung_rank_after_skipped_rung": 300 if q else 8000,
+        "decided:rung_rank_after_skipped_rung:max_mode": 120 if q else 3000,
+        "decided:rung_rank_after_skipped_rung:min_mode": 100 if q else 2500,
+        "decided:rung_rank_after_skipped_rung:STOP": 100 if q else 2500,
+        "decided:first_arrival_after_skipped_rung": 40 if q else 1000,
+        "decided:completion_records_new_entry": 50 if q else 1200,
+        "decided:completion_records_new_entry:max_mode": 25 if q else 600,
+        "decided:completion_matrix_checked": 40 if q else 1000,
+        "decided:rung_rank_against_entry_recorded_at_completion": 250 if q else 6000,
+        "decided:rung_rank_against_entry_recorded_at_completion:max_mode": 120 if q else 3000,
+        "decided:rung_rank_against_entry_recorded_at_completion:min_mode": 60 if q else 1500,
     }
 
 
@@ -543,6 +562,12 @@ def _moasha_params(spec):
     # NonDominatedPriority(max_num_samples=k): only the best k items are ranked, the rest share the worst priority
     if not plain and P["prio"]["kind"] == "nd" and rng2.random() < 0.6:
         P["prio"] = dict(P["prio"], max_num_samples=rng2.choice([1, 1, 2, 2, 3, 4, 5, 7, 10]))
+    # sparse reporters: trials that report only every k-th resource level and/or start above the first rung
+    # levels; trials ending by themselves whose completion carries a final result at a new level
+    P["sparse"] = 0.0 if plain else rng2.choice([0.0, 0.0, 0.0, 0.5, 1.0])
+    P["complete_new"] = 0.0 if plain else rng2.choice([0.0, 0.0, 0.5])
+    if not plain and P["sparse"] > 0 and rng2.random() < 0.7:
+        P["early"] = rng2.choice([0.3, 0.6, 0.8])
     if "override" in spec:
         P["key_order"], P["col_affine"] = "canonical", [[1, 0]] * d
     P.update(spec.get("override", {}))
@@ -734,6 +759,18 @@ def _drive(o, P, spec, sched, calls, script, judge, signs, table_signs, canonica
     script_i = 0
     aborted = False
 
+    def expect(tid, bidx, t):
+        """The first rung from the top with level <= t at which the trial is not recorded yet decides and
+        records (one rung per call). Second value: the trial has other unrecorded rung levels <= t (it skipped
+        a rung) or decides here at a rung below one it is already recorded at."""
+        ms = milestones[bidx]
+        reached = [m for m in ms if t >= m and all(x[0] != tid for x in recorded.get((bidx, m), []))]
+        if not reached:
+            return ("non_rung", None), False
+        m = max(reached)
+        above = any(mm > m and t >= mm for mm in ms)
+        return ("first" if not recorded.get((bidx, m)) else "rank", m), (len(reached) > 1 or above)
+
     def call(api, fn, *a, **k):
         try:
             return fn(*a, **k)
@@ -820,8 +857,32 @@ def _drive(o, P, spec, sched, calls, script, judge, signs, table_signs, canonica
                     length = lrng.randint(1, n_levels_to_max)
                 if str(tid) in lengths_override:
                     length = min(n_levels_to_max, int(lengths_override[str(tid)]))
-                curve = _curve(P, spec, tid, length)
-                info[tid] = {"trial": trial, "level": 0, "length": length, "curve": curve, "bidx": bidx}
+                stride, first = 1, 1
+                if lrng.random() < P.get("sparse", 0.0):
+                    stride = lrng.choice([1, 2, 2, 3, 3, 5])
+                    first = lrng.choice([1, stride, lrng.randint(1, max(1, min(n_levels_to_max, 3 * P["grace"] * 3)))])
+                so = (spec.get("strides") or {}).get(str(tid))
+                if so:
+                    stride, first = int(so[0]), int(so[1])
+                levels, lv = [], first
+                while True:
+                    levels.append(lv)
+                    if lv >= n_levels_to_max:  # this report carries time >= max_t
+                        break
+                    if lv + stride > length and length < n_levels_to_max:  # the script ends by itself
+                        break
+                    lv += stride
+                # completion with a final result at a new level (not passed to on_trial_result before)
+                final_extra = None
+                if lrng.random() < P.get("complete_new", 0.0) and levels[-1] + stride + off < max_t:
+                    final_extra = levels[-1] + stride
+                if str(tid) in (spec.get("final_extra") or {}):
+                    final_extra = int(spec["final_extra"][str(tid)])
+                curve = _curve(P, spec, tid, max(levels[-1], final_extra or 0))
+                info[tid] = {"trial": trial, "idx": 0, "levels": levels, "curve": curve, "bidx": bidx,
+                             "final_extra": final_extra, "sparse": stride > 1 or first > 1}
+                if judge and (stride > 1 or first > 1):
+                    o.count("trials_sparse_reporter")
                 running.append(tid)
                 started += 1
                 if judge:
@@ -831,8 +892,8 @@ def _drive(o, P, spec, sched, calls, script, judge, signs, table_signs, canonica
             # ------------------------------------------------------------ a report
             tid = act
             ti = info[tid]
-            ti["level"] += 1
-            level = ti["level"]
+            level = ti["levels"][ti["idx"]]
+            ti["idx"] += 1
             t = level + off
             raw = [v * s for v, s in zip(ti["curve"][level - 1], table_signs)]
             result, korder = _result_dict(P, spec, tid, level, t, raw, canonical_keys)
@@ -841,41 +902,62 @@ def _drive(o, P, spec, sched, calls, script, judge, signs, table_signs, canonica
                 o.count("reports_with_noncanonical_key_order")
             bidx = ti["bidx"]
             # reference expectation
+            skipped = False
             if t >= max_t:
                 exp = ("max_t", None)
             else:
-                reached = [m for m in milestones[bidx] if t >= m and all(x[0] != tid for x in recorded.get((bidx, m), []))]
-                if not reached:
-                    exp = ("non_rung", None)
-                else:
-                    if len(reached) > 1 and judge:
-                        o.count("report_reaches_several_rungs")
-                    m = max(reached)
-                    exp = ("first" if not recorded.get((bidx, m)) else "rank", m)
+                exp, skipped = expect(tid, bidx, t)
             n_before = len(calls)
             dec = call("on_trial_result", sched.on_trial_result, ti["trial"], result)
             new_calls = calls[n_before:]
             decisions.append((tid, level, dec))
             if judge:
                 o.ev("report", tid, level, raw, "->", dec, exp[0], exp[1])
-                ctx = {"bracket": bidx}
+                ctx = {"bracket": bidx, "skipped": skipped}
                 if exp[1] is not None:
                     below = [m for m in milestones[bidx] if m < max_t]
                     ctx["top_rung"] = bool(below) and exp[1] == below[-1]
                     ctx["level_known_to_scheduler"] = exp[1] in own_levels.get(bidx, [])
                 _judge_report(o, P, exp, dec, t, svec, raw, signs, recorded.get((bidx, exp[1]), []), new_calls, inv_rf, korder, ctx)
             if exp[1] is not None:
-                recorded.setdefault((bidx, exp[1]), []).append((tid, svec, korder))
+                recorded.setdefault((bidx, exp[1]), []).append((tid, svec, korder, "result"))
             # protocol
             if dec == STOP:
                 call("on_trial_remove", sched.on_trial_remove, ti["trial"])
                 running.remove(tid)
             elif dec == CONTINUE:
-                if level >= ti["length"]:
-                    call("on_trial_complete", sched.on_trial_complete, ti["trial"], result)
+                if ti["idx"] >= len(ti["levels"]):
+                    # the script ended by itself: on_trial_complete with the last result (tuner contract), or - for
+                    # some trials - with a final result at a new level. MOASHA passes it to the bracket once more.
+                    c_t, c_raw, c_svec, c_korder, c_result = t, raw, svec, korder, result
+                    if ti["final_extra"] is not None:
+                        fl = ti["final_extra"]
+                        c_t = fl + off
+                        c_raw = [v * s for v, s in zip(ti["curve"][fl - 1], table_signs)]
+                        c_result, c_korder = _result_dict(P, spec, tid, fl, c_t, c_raw, canonical_keys)
+                        c_svec = [v * s for v, s in zip(c_raw, signs)]
+                    c_exp, c_skipped = expect(tid, bidx, c_t)
+                    n_before = len(calls)
+                    call("on_trial_complete", sched.on_trial_complete, ti["trial"], c_result)
+                    c_calls = calls[n_before:]
                     running.remove(tid)
                     if judge:
                         o.count("trials_completed")
+                        o.ev("complete", tid, c_t, c_raw, c_exp[0], c_exp[1])
+                        if ti["final_extra"] is not None:
+                            o.count("completions_with_new_final_result")
+                        if c_exp[1] is not None:
+                            o.count("decided:completion_records_new_entry")
+                            if any(x < 0 for x in signs):
+                                o.count("decided:completion_records_new_entry:max_mode")
+                            cctx = {"bracket": bidx, "skipped": c_skipped, "completion": True,
+                                    "level_known_to_scheduler": c_exp[1] in own_levels.get(bidx, [])}
+                            _judge_report(o, P, c_exp, None, c_t, c_svec, c_raw, signs,
+                                          recorded.get((bidx, c_exp[1]), []), c_calls, inv_rf, c_korder, cctx)
+                        elif c_calls:
+                            _violate(o, "rung_entries", "completion:priority_evaluated_although_nothing_to_record", {"time": c_t})
+                    if c_exp[1] is not None:
+                        recorded.setdefault((bidx, c_exp[1]), []).append((tid, c_svec, c_korder, "complete"))
             else:
                 if judge:
                     _violate(o, "decision", "decision:neither_stop_nor_continue", {"decision": repr(dec)})
@@ -908,8 +990,15 @@ def _judge_report(o, P, exp, dec, t, svec, raw, signs, entries, new_calls, inv_r
         if dec != CONTINUE:
             _violate(o, "stop_only_at_rung", "non_rung:trial_stopped_between_rungs", base)
         return
+    completion = bool(ctx.get("completion"))
+    if completion and kind != "rank":
+        return  # nothing is decided on the completion path; the entry is checked when it is ranked against
     if kind == "first":
         o.count("decided:first_arrival")
+        if ctx.get("skipped"):
+            o.count("decided:first_arrival_after_skipped_rung")
+        if new_calls:
+            _violate(o, "first_arrival", "first_arrival:priority_evaluated_at_other_rung_for_the_same_report", base)
         if dec != CONTINUE:
             _violate(o, "first_arrival", "first_arrival:not_continued", dict(base, rung=exp[1]))
         return
@@ -927,14 +1016,19 @@ def _judge_report(o, P, exp, dec, t, svec, raw, signs, entries, new_calls, inv_r
     sensitive = bool((Mperm != Mref).any())  # reading the vectors in report order would change the matrix
     if noncanon:
         wit["metric_key_order_of_each_report"] = [list(ko) for ko in korders]
+    sfx = ":on_trial_complete" if completion else ""
+    via_complete = [len(e) > 3 and e[3] == "complete" for e in entries]
     if not new_calls:
-        _violate(o, "rung_rank_rule", "rung_decision_without_priority_evaluation" + (
+        _violate(o, "rung_rank_rule", "rung_decision_without_priority_evaluation" + sfx + (
             "" if ctx.get("level_known_to_scheduler", True) else ":level_grace*rf^(k+s)_missing_from_bracket"), wit)
         p_used = None
     else:
-        M, p_used = new_calls[-1]
+        # one report is ranked at one rung only: the first rung from the top it newly reaches
+        M, p_used = new_calls[0]
         if len(new_calls) > 1:
             o.count("several_priority_calls_in_one_report")
+            _violate(o, "one_rung_per_report", "rung_decision:priority_evaluated_at_several_rungs_for_one_report" + sfx,
+                     dict(wit, n_priority_calls=len(new_calls), matrices=[c[0].tolist() for c in new_calls[:4]]))
         wit["matrix_given"] = M.tolist()
         wit["priorities"] = p_used.tolist()
         # --- the matrix: exactly the recorded trials + the new one (last), signs applied
@@ -957,19 +1051,30 @@ def _judge_report(o, P, exp, dec, t, svec, raw, signs, entries, new_calls, inv_r
             if not (M2[-1] == Mref[-1]).all():
                 unsigned = np.array(raw, dtype=float)
                 if korders[-1] != ident and (M2[-1] == Mperm[-1]).all():
-                    mech = "objective_matrix:coordinates_follow_report_key_order_not_metrics_argument"
+                    mech = "objective_matrix:coordinates_follow_report_key_order_not_metrics_argument" + sfx
                 elif has_max and (M2[-1] == unsigned).all():
-                    mech = "objective_matrix:mode_sign_not_applied"
+                    mech = "objective_matrix:mode_sign_not_applied" + sfx
                 elif any((M2[i] == Mref[-1]).all() for i in range(n - 1)):
-                    mech = "objective_matrix:new_trial_is_not_last_row"
+                    mech = "objective_matrix:new_trial_is_not_last_row" + sfx
                 else:
-                    mech = "objective_matrix:new_trial_row_differs"
+                    mech = "objective_matrix:new_trial_row_differs" + sfx
                 _violate(o, "mode_signs_and_rung_entries", mech, wit)
             elif sorted(map(tuple, M2[:-1].tolist())) != sorted(map(tuple, Mref[:-1].tolist())):
-                if noncanon and sorted(map(tuple, M2[:-1].tolist())) == sorted(map(tuple, Mperm[:-1].tolist())):
+                # which history entries are wrong? (entries recorded by on_trial_complete get their own key)
+                given = sorted(map(tuple, M2[:-1].tolist()))
+                wrong_c = [i for i in range(n - 1) if via_complete[i] and tuple(Mref[i].tolist()) not in given]
+                wrong_r = [i for i in range(n - 1) if not via_complete[i] and tuple(Mref[i].tolist()) not in given]
+                if wrong_c and not wrong_r:
+                    unsigned_c = all(tuple((Mref[i] * np.array(signs)).tolist()) in given for i in wrong_c)
+                    _violate(o, "rung_entries", "objective_matrix:entry_recorded_at_completion_differs_from_final_result" + (
+                        ":mode_sign_not_applied" if unsigned_c and has_max else ""), dict(wit, rows=wrong_c))
+                elif noncanon and sorted(map(tuple, M2[:-1].tolist())) == sorted(map(tuple, Mperm[:-1].tolist())):
                     _violate(o, "rung_entries", "objective_matrix:recorded_rows_follow_report_key_order_not_metrics_argument", wit)
                 else:
-                    _violate(o, "rung_entries", "objective_matrix:recorded_rows_differ_from_history", wit)
+                    _violate(o, "rung_entries", "objective_matrix:recorded_rows_differ_from_history" + sfx, wit)
+    if completion:
+        o.count("decided:completion_matrix_checked")
+        return
     # --- independent priorities for the scalar kinds
     p_ref, scale = _recompute_priorities(P, Mref)
     if p_ref is not None:
@@ -1007,6 +1112,14 @@ def _judge_report(o, P, exp, dec, t, svec, raw, signs, entries, new_calls, inv_r
         o.count("decided:rung_rank_with_tied_priority")
     o.count("rung_outcome:" + str(dec))
     o.count("rung_rank:" + P["prio"]["kind"])
+    mtag = ":max_mode" if any(x < 0 for x in signs) else ":min_mode"
+    if ctx.get("skipped"):
+        o.count("decided:rung_rank_after_skipped_rung")
+        o.count("decided:rung_rank_after_skipped_rung" + mtag)
+        o.count("decided:rung_rank_after_skipped_rung:" + expected)
+    if any(via_complete):
+        o.count("decided:rung_rank_against_entry_recorded_at_completion")
+        o.count("decided:rung_rank_against_entry_recorded_at_completion" + mtag)
     if ctx.get("bracket", 0) >= 1:
         o.count("decided:rung_rank_bracket>=1")
         if ctx.get("top_rung"):
